@@ -88,3 +88,9 @@ impl Clone for Value {
     #[verifier::external_body]
     fn clone(&self) -> (r: Self) ensures r == *self { unimplemented!() }
 }
+/// `map.values().cloned().collect::<Vec<_>>()` (std contract of HashMap::values): the values of SOME listing of
+/// the entries - every entry once, in an order that is not a function of the content
+#[verifier::external_body]
+pub fn vx_map_values_some_order(m: &Map) -> (r: Vec<Value>)
+    ensures exists|s: Seq<(Key<'static>, Value)>| #[trigger] lists(s, m@) && r@ =~= Seq::new(s.len(), |i: int| s[i].1)
+{ unimplemented!() }
